@@ -48,7 +48,7 @@ STAGE_LIST = list(c14.STAGES.keys())
 
 def gen_cases(tier, seed):
     cases = []
-    n_inputs = 1 if tier == 'quick' else 3
+    n_inputs = 1 if tier == 'quick' else 6
     for stage in STAGE_LIST:
         for k in range(n_inputs):
             cases.append({'stage': stage, 'seed': 7000 + 13 * seed + k,
